@@ -1,10 +1,12 @@
 (* Props/C05.v — Resolved markets always finish settling; block processing never aborts.
-   PARTIAL: the ordering fact and the transaction-atomicity fact are proved here; absence of aborts and
-   the progress bound over histories are decided per run: every Begin/EndBlock panic of the real app is a
-   violation, the work-conserving progress monitor runs on every EndBlock, and sampled histories are
-   re-executed under other batch sizes and their final balances compared. *)
+   Proved over every history (C05_no_abort, C05_no_panic; Proofs/NoAbort.v): begin-block and end-block processing never abort --
+   every bet settlement, every participation payout with its subaccount hooks and every mint step succeeds -- for every accepted
+   parameter set and every pair of batch sizes; plus the ordering fact and transaction atomicity.
+   PARTIAL: the progress bound (settled within pending/batch blocks) and the independence of final balances from the batch sizes
+   are decided per run: the work-conserving progress monitor runs on every EndBlock, and sampled histories are re-executed under
+   other batch sizes and their final balances compared. *)
 From Coq Require Import ZArith Bool List String.
-From Sge Require Import Model.Chain Proofs.Inversion Proofs.Tables Gen.perms.
+From Sge Require Import Lib.Dec Model.Types Model.Mint Model.Chain Proofs.Inversion Proofs.Tables Gen.perms Proofs.SubHist Proofs.NoAbort Witness.C11w.
 Import ListNotations.
 
 (* the bet end-blocker runs before the order-book end-blocker (regenerated from app/modules.go) *)
@@ -19,3 +21,34 @@ Print Assumptions C05_order.
 Theorem C05_failed_tx_no_trace : forall s o, snd (step s o) = Err -> fst (step s o) = s.
 Proof. exact failed_tx_no_trace. Qed.
 Print Assumptions C05_failed_tx_no_trace.
+
+Open Scope Z_scope.
+(* Over every history of operations signed by user accounts, for every bet fee within [0, minimum bet amount] (what
+   validateConstraints accepts), every mint parameter set accepted by Params.Validate, every pair of batch sizes, from any genesis
+   whose custody accounts are empty: the chain never halts and no operation outputs Panic *)
+Theorem C05_no_abort : forall P bk supply vault MP t0 sw sd,
+  pr_bet_fee P <= pr_bet_min P -> 0 <= pr_bet_fee P ->
+  bget bk POOL = 0 -> bget bk HOUSEFEE = 0 -> bget bk BETFEE = 0 -> (forall a, SUBBASE <= a -> 0 <= bget bk a) ->
+  mparams_valid MP = true ->
+  forall ops, Forall user_op ops -> c_halted (run (init bk supply P vault MP t0 sw sd) ops) = false.
+Proof. exact no_abort. Qed.
+Print Assumptions C05_no_abort.
+
+Theorem C05_no_panic : forall P bk supply vault MP t0 sw sd,
+  pr_bet_fee P <= pr_bet_min P -> 0 <= pr_bet_fee P ->
+  bget bk POOL = 0 -> bget bk HOUSEFEE = 0 -> bget bk BETFEE = 0 -> (forall a, SUBBASE <= a -> 0 <= bget bk a) ->
+  mparams_valid MP = true ->
+  forall ops o, Forall user_op ops -> snd (step (run (init bk supply P vault MP t0 sw sd) ops) o) <> Panic.
+Proof. exact no_panic. Qed.
+Print Assumptions C05_no_panic.
+
+(* non-vacuity: a harness-generated history (markets, deposits and wagers directly and through subaccounts, resolutions, end blocks
+   that settle bets and pay participations) consists of user operations, and its genesis meets the hypotheses *)
+Example C05_no_abort_witness :
+  forallb user_opb c11w_ops = true /\
+  (let s := run c11w_init c11w_ops in
+   negb (c_halted s) && (0 <? Z.of_nat (List.length (c_settledix s))) &&
+   existsb (fun e => existsb p_settled (bk_parts (ms_book (snd e)))) (c_ms s)) = true /\
+  mparams_valid (c_mparams c11w_init) = true /\ (pr_bet_fee (c_prm c11w_init) <=? pr_bet_min (c_prm c11w_init)) = true /\
+  forallb (fun a => bget (c_bank c11w_init) a =? 0) [POOL; HOUSEFEE; BETFEE] = true.
+Proof. vm_compute. repeat split; reflexivity. Qed.
